@@ -50,6 +50,8 @@ type FuncInfo struct {
 	ModKind  []string // "ptr" or "slice" per Mod entry (filled at exec time from the type)
 	LoopInv  map[int][]*GenFunc
 	LoopDec  map[int]*GenFunc
+	LoopSplit map[int][]*GenFunc
+	Split    []*GenFunc
 	Scope    *types.Scope
 	declPkg  *types.Package
 }
@@ -270,6 +272,18 @@ func loadWorld(repo string, extraContractFiles []string) (*World, error) {
 				return nil, err
 			}
 		}
+		for _, g := range fi.Split {
+			if err := bind(g); err != nil {
+				return nil, err
+			}
+		}
+		for _, gs := range fi.LoopSplit {
+			for _, g := range gs {
+				if err := bind(g); err != nil {
+					return nil, err
+				}
+			}
+		}
 	}
 	return w, nil
 }
@@ -468,7 +482,7 @@ func generateSpecs(w *World, p *packages.Package, contracts []*FuncContract) (st
 		if err != nil {
 			return "", fmt.Errorf("%s:%d: %v", fc.File, fc.Line, err)
 		}
-		fi := &FuncInfo{Key: fc.Key, C: fc, Sig: sig, Decl: decl, Body: fbody, LoopInv: map[int][]*GenFunc{}, LoopDec: map[int]*GenFunc{}}
+		fi := &FuncInfo{Key: fc.Key, C: fc, Sig: sig, Decl: decl, Body: fbody, LoopInv: map[int][]*GenFunc{}, LoopDec: map[int]*GenFunc{}, LoopSplit: map[int][]*GenFunc{}}
 		if recv := sig.Recv(); recv != nil {
 			n := recv.Name()
 			if n == "" || n == "_" {
@@ -609,6 +623,13 @@ func generateSpecs(w *World, p *packages.Package, contracts []*FuncContract) (st
 			}
 			fi.Ens = append(fi.Ens, g)
 		}
+		for _, c := range fc.Splits {
+			g, err := mk(fmt.Sprintf("vc_%s_split%d", san, c.Ord), "bool", c.Text, false, nil, false)
+			if err != nil {
+				return "", fmt.Errorf("%s:%d: %v", fc.File, c.Line, err)
+			}
+			fi.Split = append(fi.Split, g)
+		}
 		mi := 0
 		for _, c := range fc.Modifies {
 			for _, it := range splitTop(c.Text, ",") {
@@ -650,6 +671,13 @@ func generateSpecs(w *World, p *packages.Package, contracts []*FuncContract) (st
 					return "", fmt.Errorf("%s:%d: %v", fc.File, c.Line, err)
 				}
 				fi.LoopInv[lc.Ord] = append(fi.LoopInv[lc.Ord], g)
+			}
+			for _, c := range lc.Splits {
+				g, err := mk(fmt.Sprintf("vc_%s_loop%d_split%d", san, lc.Ord, c.Ord), "bool", c.Text, false, st, true)
+				if err != nil {
+					return "", fmt.Errorf("%s:%d: %v", fc.File, c.Line, err)
+				}
+				fi.LoopSplit[lc.Ord] = append(fi.LoopSplit[lc.Ord], g)
 			}
 			if lc.Dec != nil {
 				g, err := mk(fmt.Sprintf("vc_%s_loop%d_dec", san, lc.Ord), "int", lc.Dec.Text, false, st, true)
